@@ -1,20 +1,28 @@
 #!/bin/bash
 # tools/mutants.sh [name-filter] : sensitivity self-test (NOT a registered check).
-# Every /verif/mutants/<name>.diff is applied to /repo, the quick check of the property named in
-# <name>.meta is run with a reduced budget, and /repo is restored. Expected: every mutant turns its
-# check red (exit 1). Results are appended to /verif/mutants/RESULTS.txt.
-cd /repo || exit 2
-test -z "$(git status --porcelain --untracked-files=no)" || { echo "/repo has uncommitted changes"; exit 2; }
-OUT=/verif/mutants/RESULTS.txt
+# Works on a PRIVATE copy of the repository (a scratch git worktree of /repo's HEAD under $TMPDIR, or
+# $VP_RUN_REPO under `vp run --with-repo`), with its own build directory: /repo is never touched.
+# Every mutants/<name>.diff is applied to the copy, the quick check of the property named in
+# <name>.meta is run with a reduced budget (SCALE, default 0.4), and the copy is restored.
+# Expected: every mutant turns its check red (exit 1). Results: mutants/RESULTS.txt of this /verif.
+V=$(cd "$(dirname "$0")/.." && pwd)
+SCR=$(mktemp -d ${TMPDIR:-/tmp}/bxmut.XXXXXX)
+if [ -n "$VP_RUN_REPO" ]; then R=$VP_RUN_REPO; OWN=0; else R=$SCR/repo; git -C /repo worktree add -q --detach $R HEAD || exit 2; OWN=1; fi
+export BXSIM_REPO=$R BXSIM_VERIF=$V BXSIM_BUILD=$SCR/build BXSIM_EVIDENCE_DIR=$SCR/evidence BXSIM_REPLAY_DIR=$SCR/replays
+cleanup() { [ $OWN = 1 ] && git -C /repo worktree remove --force $R; rm -rf $SCR; }
+trap cleanup EXIT
+$V/bin/build plain asan tsan || { echo "baseline build of the copy failed"; exit 2; }
+OUT=$V/mutants/RESULTS.txt
 : > $OUT.new
-for d in /verif/mutants/*${1}*.diff; do
-  n=$(basename $d .diff); prop=$(grep -o 'property=C[0-9]*' /verif/mutants/$n.meta | cut -d= -f2)
-  if ! git apply --check $d 2>/dev/null; then echo "$n $prop DOES-NOT-APPLY" | tee -a $OUT.new; continue; fi
-  git apply $d
+for d in $V/mutants/*${1}*.diff; do
+  n=$(basename $d .diff); prop=$(grep -o 'property=C[0-9]*' $V/mutants/$n.meta | cut -d= -f2)
+  if ! (cd $R && patch -p1 -s --dry-run < $d >/dev/null 2>&1); then echo "$n $prop DOES-NOT-APPLY" | tee -a $OUT.new; continue; fi
+  (cd $R && patch -p1 -s < $d)
   t0=$(date +%s)
-  (cd /verif && BXSIM_BUDGET_SCALE=${SCALE:-0.4} bin/check $prop quick > /tmp/mutant_$n.log 2>&1); rc=$?
-  git checkout -q -- .
-  cls=$(grep -A1 '^VIOLATION' /tmp/mutant_$n.log | grep 'class=' | head -1 | sed 's/^ *//' | cut -c1-120)
+  (cd $V && BXSIM_BUDGET_SCALE=${SCALE:-0.4} bin/check $prop quick > $SCR/log.$n 2>&1); rc=$?
+  (cd $R && patch -p1 -R -s < $d)
+  cls=$(grep -A1 '^VIOLATION' $SCR/log.$n | grep 'class=' | head -1 | sed 's/^ *//' | cut -c1-120)
+  [ $rc = 2 ] && cls="$cls $(grep -E 'BUILD-FAILED|HARNESS|BROKEN' $SCR/log.$n | head -1 | cut -c1-100)"
   echo "$n $prop exit=$rc $(( $(date +%s) - t0 ))s $cls" | tee -a $OUT.new
 done
-mv $OUT.new $OUT
+if [ -z "$1" ]; then mv $OUT.new $OUT; else cat $OUT.new >> $OUT.partial; rm -f $OUT.new; fi
